@@ -168,6 +168,8 @@ def run_api(c: Case, case: dict) -> dict:  # noqa: C901, PLR0915
         n_anon = 0
         plain_expected = []
         k = 0
+        handed: dict = {}       # anonymized packet -> times the overlay handed it to send()
+        carried: dict = {}      # anonymized packet -> times it was given to a circuit
         # a second TunnelEndpoint of the same process (another pseudonym / node) carrying an overlay with the same prefix
         raw2 = Raw()
         ep2 = TunnelEndpoint(raw2)
@@ -180,7 +182,14 @@ def run_api(c: Case, case: dict) -> dict:  # noqa: C901, PLR0915
             n_anon += 1
             pkt = ANON_PREFIX + b"\x01" + n_anon.to_bytes(4, "big")
             r0, s0, q0 = len(raw.sent), len(tc.sent), len(ep.send_queue)
+            handed[pkt] = handed.get(pkt, 0) + 1
             ep.send(("7.7.7.7", 7), pkt)
+            for _cid, _info, dest, data in tc.sent[s0:]:
+                carried[data] = carried.get(data, 0) + 1
+                if data not in handed or carried[data] > handed[data] or tuple(dest) != ("7.7.7.7", 7):
+                    c.violate("right_circuit", "tunnelled_packet_is_not_what_the_overlay_sent",
+                              f"after '{seq[:k]}' a circuit was given {len(data)} bytes towards {tuple(dest)} that the overlay "
+                              f"{'never sent' if data not in handed else 'sent ' + str(handed[data]) + 'x (carried ' + str(carried[data]) + 'x)'}")
             went_raw = [p for _a, p in raw.sent[r0:] if p[:22] == ANON_PREFIX]
             if anon_on and went_raw:
                 c.violate("never_raw", "anonymized_packet_sent_on_raw_socket", f"after '{seq[:k]}' an anonymized packet reached the raw endpoint")
@@ -368,8 +377,16 @@ def run_net(c: Case, case: dict) -> dict:  # noqa: C901, PLR0915
 
         inner_send_data = tc.send_data
 
+        handed_net: dict = {}
+        carried_net: dict = {}
+
         def send_data(target_addr, circuit_id, dest, src, data):  # noqa: ANN001, ANN202
             if data[:22] == aprefix:
+                carried_net[data] = carried_net.get(data, 0) + 1
+                if carried_net[data] > handed_net.get(data, 0):
+                    c.violate("right_circuit", "tunnelled_packet_is_not_what_the_overlay_sent",
+                              f"{len(data)} bytes given to circuit {circuit_id}: handed to send() {handed_net.get(data, 0)}x, "
+                              f"carried {carried_net[data]}x")
                 circ = tc.circuits.get(circuit_id)
                 ok = circ is not None and circ.state == "READY" and circ.goal_hops == me.endpoint.hops \
                     and PEER_FLAG_EXIT_IPV8 in circ.exit_flags and PEER_FLAG_EXIT_IPV8 in real_flags(circ)
@@ -382,6 +399,13 @@ def run_net(c: Case, case: dict) -> dict:  # noqa: C901, PLR0915
                     world.probe("anon_send_over_ready_circuit")
             return inner_send_data(target_addr, circuit_id, dest, src, data)
         tc.send_data = send_data
+        inner_ep_send = me.endpoint.send
+
+        def ep_send(address, packet):  # noqa: ANN001, ANN202
+            if packet[:22] == aprefix:
+                handed_net[packet] = handed_net.get(packet, 0) + 1      # whatever the overlay hands to its endpoint, also on its own
+            return inner_ep_send(address, packet)
+        me.endpoint.send = ep_send
 
         def on_send(pkt, fate) -> None:  # noqa: ANN001
             if pkt.src_node == me.name and pkt.data[:22] == aprefix and st["anon_on"] and pkt.src[0] == me.ip:
